@@ -394,7 +394,7 @@ package jsonschema
 //@ contract falseSchema()
 //@   pure
 //@   ensures result != nil && fresh(result)
-//@   ensures[C09] notset: result.Not != nil && fresh(result.Not)
+//@   ensures[C09] notset: result.Not != nil && fresh(result.Not) && allocated(result.Not)
 
 //@ contract (*Schema).basicChecks(s)
 //@   pure
@@ -518,7 +518,9 @@ package jsonschema
 //@   ensures[C04,C09] tstruct: result0 != nil && plain && tkind(tbase(t0)) == 25 ==> typeIs(result0, "object", tkind(t0) == 22) && closedObject(result0)
 //@   ensures[C04,C09] tarray: result0 != nil && plain && tkind(tbase(t0)) == 17 ==> typeIs(result0, "array", tkind(t0) == 22) && result0.Items != nil && result0.MinItems != nil && *result0.MinItems == tlen(tbase(t0)) && result0.MaxItems != nil && *result0.MaxItems == tlen(tbase(t0))
 //@   ensures[C04,C09] tslice: result0 != nil && plain && tkind(tbase(t0)) == 23 && envOf("JSONSCHEMAGODEBUG") != "typeschemasnull=1" ==> result0.Type == "" && len(result0.Types) == 2 && result0.Types[0] == "null" && result0.Types[1] == "array" && result0.Items != nil && result0.MinItems == nil && result0.MaxItems == nil
-//@   loopinv[C04,C09] obj: tkind(t) == 25 ==> s.Type == "object" && isnil(s.Types) && closedObject(s)
+//@   loopinv[C04,C09] obj: tkind(t) == 25 ==> s.Type == "object" && isnil(s.Types) && closedObject(s) && allocated(s) && allocated(s.AdditionalProperties) && allocated(s.AdditionalProperties.Not)
+//@   loop "range keys"
+//@     invariant props: s.Properties != nil && allocated(s) && allocated(s.Properties)
 //@   loop "for t.Kind() == reflect.Pointer"
 //@     invariant[C04,C09] base: tbase(t) == tbase(t0) && (allowNull ==> tkind(t0) == 22) && (!allowNull ==> t == t0)
 //@   ensures[C16,C10] fresh: result0 != nil ==> fresh(result0)
